@@ -232,7 +232,7 @@ def validate_cases(module, cases, cfg=None, chunks=None, timeout=3600, key="id",
     return verdicts, {"generated": gen, "distinct": dist, "wall_s": time.time() - t0, "chunks": len(files)}
 
 
-_SHAPE_MARKERS = ("which is not in the domain of the function", "Attempted to apply function", "Attempted to access index", "Attempted to select field",
+_SHAPE_MARKERS = ("which is not in the domain of the function", "which is not in its domain", "In applying the function", "Attempted to apply function", "Attempted to access index", "Attempted to select field",
                   "Attempted to apply the operator", "out of bounds", "nonexistent field", "Attempted to compute Len", "applying to the tuple", "Attempted to select nonexistent")
 
 
